@@ -294,12 +294,16 @@ theorem fake_drop_period (w : World) (i : Nat) (a b : Str) (n per : Int)
     · rw [if_pos (.inr h1)]; exact parseCmd_fake_drop2_badperiod ha hb (by omega) h1
     · rw [if_neg (by omega)]; exact parseCmd_fake_drop2 ha hb (by omega) (by omega)
 
-/-- FAKE_TRXC_DELAY <ms>: the delay is stored, the command is acknowledged with 0 -/
+/-- FAKE_TRXC_DELAY <ms>: a delay of 0..60000 ms is stored and acknowledged with 0; a negative one or
+one above one minute is refused with −1 and changes nothing -/
 theorem fake_trxc_delay_effect (w : World) (i : Nat) (t : Trx) (a : Str) (ms : Int)
     (ht : w.trxs[i]? = some t) (ha : pyInt a = some ms) :
     parseCmd w i [lit "FAKE_TRXC_DELAY", a] =
-      .ok (setTrx w i (fun t => { t with rspDelay := ms }), (0, [])) :=
-  parseCmd_fake_trxc_delay ht ha
+      .ok (if ms < 0 ∨ ms > 60000 then (w, (-1, []))
+           else (setTrx w i (fun t => { t with rspDelay := ms }), (0, []))) := by
+  by_cases hb : ms < 0 ∨ ms > 60000
+  · rw [if_pos hb]; exact parseCmd_fake_trxc_delay_bad ha hb
+  · rw [if_neg hb]; exact parseCmd_fake_trxc_delay ht ha (by omega) (by omega)
 
 /-- any verb / argument-count combination that is not a row of the documented table
 (`NotInTable`: every `verify_cmd(request, V, n)` of the table is false) is acknowledged with
